@@ -1,5 +1,6 @@
 """C16 - layout is meaning-neutral."""
 from . import line_rules as lr, matcher_rules as mr, parser_rules as pr, builder_rules as br, error_rules as er, dialect_rules as dr
+from . import misc_rules as ms
 
 META = {
     "level": "other",
@@ -32,3 +33,5 @@ def run(rep):
     br.rule_fields(rep, "C16.fields")
     # the language header is recognised with or without a trailing carriage return
     dr.rule_header(rep, "C16.header")
+    # no hidden state: what the property promises for one use must hold for every later use as well
+    ms.rule_stateless(rep, "C16")
